@@ -1,7 +1,7 @@
 (* Property C07 -- theorems only (R instance of Model/Steps.v; the binary64
    instance of the same definitions is executed against the implementation). *)
 From Coq Require Import Reals List Arith Bool Lia Lra.
-From NV Require Import Base.Exn Model.FitCore Model.Steps Model.Poc Model.Median Proofs.FitCoreP Proofs.StepsP Proofs.MedianP Proofs.TieP.
+From NV Require Import Base.Exn Model.FitCore Model.Steps Model.Poc Model.Median Proofs.FitCoreP Proofs.StepsP Proofs.MedianP Proofs.MedianWideP Proofs.TieP.
 Import ListNotations.
 Local Open Scope R_scope.
 
@@ -191,6 +191,29 @@ Proof. intros m data. split; [intros w Hw H; exact (smooth_fixed_asc m w data Hw
 
 Theorem C07_smooth_loops_exhausted : forall w data, r_widen 0 w data = Err ValueError.
 Proof. exact widen_exhausted. Qed.
+
+(* ... but the window-doubling loop never gets there on real arrays.  Once the window
+   reaches over the whole array from every position, the window of position i holds
+   copies of the first sample, the array, and copies of the last sample; one step to the
+   right swaps one copy of the first for one of the last, so the median moves weakly in the
+   direction from the first to the last sample: the filter output is weakly monotone *)
+Theorem C07_wide_window_monotone : forall w l, reaches_over w (length l) ->
+  (forall i, (S i < length (r_median_filter w l))%nat ->
+     nth i (r_median_filter w l) 0 <= nth (S i) (r_median_filter w l) 0) \/
+  (forall i, (S i < length (r_median_filter w l))%nat ->
+     nth (S i) (r_median_filter w l) 0 <= nth i (r_median_filter w l) 0).
+Proof. exact wide_monotone. Qed.
+
+(* ... hence the first loop returns within max_iter = fuel + 1 rounds whenever the last
+   window it may try, 2^fuel (w + 1) - 1, is at least twice the array (max_iter = 1000,
+   w = 15: every array shorter than 2^1002 samples) *)
+Theorem C07_smooth_first_loop_terminates : forall fuel w data,
+  (2 * length data + 1 <= 2 ^ fuel * (w + 1))%nat ->
+  exists w' s, r_widen (S fuel) w data = Ok (w', s).
+Proof. exact widen_terminates. Qed.
+
+Example C07_first_loop_bound_met : (2 * 200 + 1 <= 2 ^ 5 * (15 + 1))%nat /\ reaches_over 63 31.
+Proof. split; [simpl; lia | unfold reaches_over; simpl; lia]. Qed.
 
 (* the exit test |sum d| = sum |d| (used until the repair recorded as D28) is not
    a sign test in binary64: a contrary step is absorbed by rounding *)
